@@ -173,8 +173,18 @@ fn disk_run(args: &[String]) {
     let mut events = 0;
     let mut probes = 0;
     let mut n = 0;
+    let tomb = args.iter().any(|a| a == "--tomb");
     for (i, line) in text.lines().filter(|l| !l.trim().is_empty()).enumerate() {
         let script: J = serde_json::from_str(line).unwrap_or_else(|e| die(format!("script {i}: {e}")));
+        if tomb {
+            let mut run = disk::TombRun::new(&cfg, &hcfg).unwrap_or_else(|e| die(format!("script {i}: {e}")));
+            for op in script["ops"].as_array().unwrap_or_else(|| die("script without ops")) {
+                run.apply(op).unwrap_or_else(|e| die(format!("script {i}: {op}: {e}")));
+            }
+            events += run.finish(&mut w, i).unwrap_or_else(|e| die(format!("write: {e}")));
+            n += 1;
+            continue;
+        }
         let mut run = disk::DiskRun::new(&cfg, &hcfg).unwrap_or_else(|e| die(format!("script {i}: {e}")));
         for op in script["ops"].as_array().unwrap_or_else(|| die("script without ops")) {
             run.apply(op).unwrap_or_else(|e| die(format!("script {i}: {op}: {e}")));
